@@ -350,6 +350,14 @@ def run(ctx):
     check_mod0_base(db, rep, "D7-MOD0-BASE")
     from x86enc import check_imm8
     check_imm8(db, rep, "D9-IMM8-RANGE")
+    from x86enc import check_vex_pp
+    npp = check_vex_pp(db, rep, "D10-VEX-PP")
+    if npp < 10:
+        raise AnalysisBroken("only %d (encoder, prefix class) pairs judged for VEX.pp" % npp)
+    from x86enc import check_vex2_selection
+    nv2 = check_vex2_selection(db, rep, "D11-VEX2-SELECTION")
+    if nv2 < 15:
+        raise AnalysisBroken("only %d (instruction type, operand shape) cases judged for the VEX form selection" % nv2)
     from x86enc import check_listing_displacements
     wd8 = os.path.join(ctx.scratch, "disp")
     os.makedirs(wd8, exist_ok=True)
